@@ -1294,3 +1294,51 @@ CHECKS["C13"]["text"] += (
     "(thorough 3 097) programs, 15 279 / 306 005 histories."
 )
 CHECKS["C13"]["note"] += " Parameter grid points have p, q, q+1 != 0 (division by a parameter that is 0 is not in the alphabet)."
+
+CHECKS["C18"]["technique"] = (
+    'bounded-exhaustive program enumeration, differential: expanded vs unexpanded CasADi model (same other options) '
+    "under the check's own renaming"
+)
+
+CHECKS["C18"]["text"] = (
+    'Every program within <= 2 (quick) / 3 (thorough) feature deviations from a per-category base program (subject '
+    'array x of each category algebraic / state / input / parameter / constant; deviations over 17 shapes and paths '
+    '-- 1-D n=1..3, 2-D up to 2x3, component arrays holding scalars and arrays, arrays in scalar components, '
+    'two-level nesting --, start/min/max/nominal in 12 forms (each / array literal / DM / MX / array parameter / '
+    'component parameter / component-level modification), fixed, value form, output, equation form (whole array, '
+    'per element, rows and slices, for-loop, initial, x assigned a constant array / zeros, w = x, w = -x, x = w), '
+    'der form, delay form (whole array, inside a for-loop, one element), Integer, neighbours, siblings (20 '
+    "configurations: one or two further vectors y[n], u[n] of x's kind -- for outputs also of the other "
+    "differentiation status -- before / after x, sizes 1, 2, 3 mixed in every declaration order, each carrying x's "
+    'output prefix, attributes, equation / der / delay forms with its own values, coefficients and delay durations, '
+    'so that outputs, delay states, groups and the substitution lists hold two and three arrays of different '
+    'sizes)) is generated by the real backend without expand_vectors and with it (expand_mx off and on). The '
+    "expanded model must be the unexpanded one renamed by the check's own namer (1-based indices at the path "
+    'element that declares the dimension): groups in place and row-major, attribute element (i,j) on scalar (i,j) '
+    '(MX attributes evaluated as functions of the parameters at 2 grid points), outputs (every output that is a '
+    'variable of the unexpanded model, in whatever group: every scalar name exactly once, no array name left), '
+    "delay states and delay arguments (element and duration of the state's own argument), dae and initial residual "
+    'entry by entry at grid points with a distinct value per element; an exception raised only by the expansion is '
+    'a violation. The same comparison, same options on both sides, under each single other simplification switch '
+    'that moves, removes or rewrites variables (eliminate_constant_assignments, replace_constant_values, '
+    'replace_parameter_values, replace_parameter_expressions, replace_constant_expressions, '
+    'resolve_parameter_values, detect_aliases, eliminable_variable_expression) on the programs the switch acts on, '
+    'within <= 2 / 3 deviations (1 / 2 for the three switches that act on every parameter or constant); thorough: '
+    'every pair of switches one deviation lower. 11444 programs and 13907 program x option-set combinations quick, '
+    '203532 and 282693 thorough.'
+)
+
+CHECKS["C18"]["note"] = (
+    'The unexpanded model under the same options is the reference for groups, attribute values and residuals '
+    '(differential); programs the unexpanded backend rejects are not judged (none with default options; 54 quick / '
+    '3044 thorough under a switch: list-of-expression bounds on aliased arrays, nested-list values under '
+    'replace_*_values). A switch is only applied where it acts on whole arrays: on element equations (for-loops, '
+    'slices, delays in loops) alias detection / elimination legitimately find more after an early expansion; '
+    'inner-array values inside component arrays are excluded under the value-replacing switches because the '
+    'unexpanded model itself is wrong there. Siblings are top-level vectors (forms that exist only inside a '
+    'component class stay on x). Order inside outputs / delay_states (compared as multisets), order inside the '
+    'groups under another switch with expand_mx, outputs whose variable the options removed, python_type of the '
+    'scalars, 3-D+ arrays, factor_and_simplify_equations / reduce_affine_expression and three or more switches are '
+    'not covered; delay states are accepted as N[i] or N[i,1]. Values only on the grid. One defect family is '
+    'reported under a fixed signature (component-parameter attribute in a component array), see known_findings.'
+)
